@@ -391,6 +391,10 @@ func (r *beRun) exec(ci, oi int, op *BEOp) *beRec {
 	if op.Key < len(r.sc.Keys) {
 		rec.key = string(r.sc.Keys[op.Key])
 		kb = []byte(rec.key)
+
+		// The caller owns its key slice again as soon as the call has returned (bench re-uses key buffers):
+		// whatever the backend kept of it instead of a copy turns into garbage.
+		defer scribble(kb)
 	}
 
 	ctx := context.Background()
@@ -700,4 +704,11 @@ func (r *beRun) jitterFrac() float64 {
 	}
 
 	return r.sc.Cfg.Jitter
+}
+
+// scribble overwrites a key buffer the harness handed to the library, after the call has returned.
+func scribble(b []byte) {
+	for i := range b {
+		b[i] = 0xEE
+	}
 }
